@@ -354,6 +354,9 @@ def parse_set_cookie_headers(headers: Sequence[str]) -> list[tuple[str, Morsel[s
                     else:
                         parsed_cookies.append((key, current_morsel))
                         morsel_seen = True
+            elif morsel_seen:
+                # Unknown attribute without a value - ignore it (RFC 6265 5.2)
+                continue
             else:
                 # Invalid cookie string - no value for non-attribute
                 break
